@@ -83,6 +83,10 @@ func C14(ctx *core.Ctx, r *core.Report) {
 	c14ModuleXorError(ctx, r)
 	c14GuardBacking(ctx, r)
 	c14Recursion(ctx, r, roots)
+	// a failed builder call leaves nil on the parser's stack unless the action stops the parse
+	if g := loadGrammar(ctx, r, "parser/parser.y"); g != nil {
+		c06BuilderErrorChecked(ctx, r, g)
+	}
 }
 
 // c14ModuleXorError (K7): in every function of the load path that returns
